@@ -65,6 +65,12 @@ var progSpecs = []progSpec{
 	{"container/processors", "dependencyAwarePostProcessors", "PostProcessProperties", "depAware_PostProcessProperties"},
 	{"container/processors", "dependencyFunctionAwarePostProcessors", "PostProcessProperties", "depFunc_PostProcessProperties"},
 	{"container/processors", "", "isActualKind", "isActualKind"},
+	{"util/el", "elHelper", "ReplaceAllContent", "el_ReplaceAllContent"},
+	{"container/processors", "configQuoteAwarePostProcessors", "PostProcessProperties", "quote_PostProcessProperties"},
+	{"container/processors", "propertiesAwarePostProcessors", "PostProcessProperties", "props_PostProcessProperties"},
+	{"container/processors", "valueAwarePostProcessors", "PostProcessProperties", "value_PostProcessProperties"},
+	{"container/processors", "expressionTagAwarePostProcessors", "PostProcessProperties", "expr_PostProcessProperties"},
+	{"container/processors", "validateAwarePostProcessors", "PostProcessProperties", "validate_PostProcessProperties"},
 }
 
 // conversions whose single argument is passed through unchanged
@@ -90,7 +96,7 @@ func isLogging(e ast.Expr) bool {
 		return false
 	}
 	n := exprName(c.Fun)
-	return strings.Contains(n, "logger()") || strings.HasPrefix(n, "syslog.") || strings.HasPrefix(n, "log.")
+	return strings.Contains(n, "logger()") || strings.HasPrefix(n, "syslog.") || strings.HasPrefix(n, "log.") || strings.HasPrefix(n, "logger.")
 }
 
 // dotted returns the dotted path of a pure identifier/selector chain and its root identifier
@@ -150,9 +156,9 @@ func (t *tr) expr(e ast.Expr) string {
 		case "nil":
 			return ".nil"
 		case "true":
-			return ".bool true"
+			return "(.bool true)"
 		case "false":
-			return ".bool false"
+			return "(.bool false)"
 		}
 		if x.Name == t.recv && t.recv != "" {
 			return "(.glob \"self\")"
@@ -401,6 +407,9 @@ func (t *tr) stmt(s ast.Stmt) []string {
 			kind := ".define"
 			if x.Tok == token.ASSIGN {
 				kind = ".assign"
+			}
+			if len(x.Rhs) == 1 && len(x.Lhs) == 1 && x.Tok == token.DEFINE && isLogging(x.Rhs[0]) {
+				return nil // `logger := syslog.Pref(…)`: every use of it is a dropped logging call
 			}
 			if len(x.Rhs) == 1 {
 				if lhs, ok := identNames(x.Lhs); ok {
